@@ -9,6 +9,7 @@ import (
 	"crypto/ed25519"
 	"encoding/gob"
 	"fmt"
+	"sync"
 	"time"
 
 	log "github.com/sirupsen/logrus"
@@ -33,6 +34,9 @@ type Core struct {
 	signPriv     ed25519.PrivateKey
 
 	store *storage.Store
+
+	// pendingMutex serializes checkPendingBundles, which is called both from the cron and for each appeared peer.
+	pendingMutex sync.Mutex
 
 	stopSyn chan struct{}
 	stopAck chan struct{}
@@ -117,6 +121,9 @@ func (c *Core) SetRoutingAlgorithm(routing Algorithm) {
 // checkPendingBundles queries pending bundle (packs) from the store and
 // tries to dispatch them.
 func (c *Core) checkPendingBundles() {
+	c.pendingMutex.Lock()
+	defer c.pendingMutex.Unlock()
+
 	if bis, err := c.store.QueryPending(); err != nil {
 		log.WithFields(log.Fields{
 			"error": err,
